@@ -47,6 +47,9 @@ type Case struct {
 	// WriteFails: that many requests meet a failing write on a session that still looks open (the caller
 	// gets the error; nothing of the request may stay behind)
 	WriteFails int `json:"write_fails,omitempty"`
+	// OnewayDrop: a further connection opens during the schedule and the announcement sent on it (a one-way
+	// request with a future) is never answered; used only in schedules that wait for the 20 s timeout anyway
+	OnewayDrop bool `json:"oneway_drop,omitempty"`
 }
 
 type stub struct{ name string }
@@ -91,6 +94,14 @@ func execute(c Case) *pt.Failure {
 	tc.Sticky(message.MessageTypeBranchRegister, &faketc.Action{Kind: faketc.NoReply})
 	defer tc.Sticky(message.MessageTypeBranchRegister, nil)
 	f0, m0 := sgetty.PendingFuturesForVerif()
+	if c.OnewayDrop {
+		tc.Script(message.RegisterTMRequest{}.GetTypeCode(), faketc.Action{Kind: faketc.NoReply})
+		extra := tc.OpenAt("10.9.9.9:8091")
+		defer tc.Lose(extra)
+		if !tc.WaitRegistered(extra, 5*time.Second) {
+			return pt.Failf("C14/harness", "no announcement on the extra session")
+		}
+	}
 	for i := 0; i < c.WriteFails; i++ {
 		tc.Script(message.MessageTypeBranchRegister, faketc.Action{Kind: faketc.TransportError})
 		t0 := time.Now()
@@ -259,6 +270,13 @@ func drawCase(t *rapid.T, allowDrop bool) Case {
 	if rapid.IntRange(0, 3).Draw(t, "writeFails") == 0 {
 		c.WriteFails = rapid.IntRange(1, 3).Draw(t, "nWriteFails")
 	}
+	if allowDrop {
+		dropped := c.Lose
+		for _, r := range c.Replies {
+			dropped = dropped || r.Drop
+		}
+		c.OnewayDrop = dropped && rapid.Bool().Draw(t, "onewayDrop")
+	}
 	return c
 }
 
@@ -292,12 +310,69 @@ func record(test string, c Case) {
 	ctx.Rec.Case(test, (reordered || c.N == 1) && (dup || drop || len(c.Collide) > 0 || c.Lose), string(b), c, labels...)
 }
 
+// coldStart is the first thing a process does: the connection opens, the announcement sent on it is still
+// unanswered (its reply is held back), and the first callers already send their requests; the replies arrive
+// announcement first. Every caller must get its own reply.
+func coldStart() *pt.Failure {
+	const n = 4
+	tc.Script(message.RegisterTMRequest{}.GetTypeCode(), faketc.Action{Delay: 250 * time.Millisecond})
+	tc.Sticky(message.MessageTypeBranchRegister, &faketc.Action{Delay: 600 * time.Millisecond})
+	defer tc.Sticky(message.MessageTypeBranchRegister, nil)
+	sess = tc.Open()
+	if !tc.WaitRegistered(sess, 5*time.Second) {
+		return pt.Failf("C14/harness", "no TM registration")
+	}
+	type res struct {
+		resp interface{}
+		err  error
+	}
+	out := make([]res, n)
+	var wg sync.WaitGroup
+	for k := 0; k < n; k++ {
+		wg.Add(1)
+		go func(k int) {
+			defer wg.Done()
+			r, err := sgetty.GetGettyRemotingClient().SendSyncRequest(message.BranchRegisterRequest{
+				Xid: fmt.Sprintf("127.0.0.1:8091:%d", 6000+k), ResourceId: fmt.Sprintf("cold-%d", k), BranchType: branch.BranchTypeTCC})
+			out[k] = res{r, err}
+		}(k)
+	}
+	done := make(chan struct{})
+	go func() { wg.Wait(); close(done) }()
+	select {
+	case <-done:
+	case <-time.After(30 * time.Second):
+		return pt.Failf("C14/cold-start/caller-hangs", "a caller of the first requests of the process did not return within 30s")
+	}
+	byRes := map[string]int64{}
+	for _, b := range tc.Branches() {
+		byRes[b.ResourceID] = b.ID
+	}
+	for k, r := range out {
+		b, ok := r.resp.(message.BranchRegisterResponse)
+		switch {
+		case r.err != nil:
+			return pt.Failf("C14/cold-start/lost-reply", "caller %d of the first requests of the process got %v although its reply was sent", k, r.err)
+		case !ok:
+			return pt.Failf("C14/cold-start/foreign-reply", "caller %d sent a BranchRegisterRequest and received %T", k, r.resp)
+		case b.BranchId != byRes[fmt.Sprintf("cold-%d", k)]:
+			return pt.Failf("C14/cold-start/foreign-reply", "caller %d received branch id %d, the coordinator registered %d for it", k, b.BranchId, byRes[fmt.Sprintf("cold-%d", k)])
+		}
+	}
+	return nil
+}
+
+var (
+	coldFailure *pt.Failure
+	coldPending = true
+)
+
 func TestMain(m *testing.M) {
 	boot.Init("")
 	tc = faketc.New("")
-	sess = tc.Open()
-	if !tc.WaitRegistered(sess, 5*time.Second) {
-		panic("no TM registration")
+	coldFailure = pt.Guard("C14/crash", coldStart)
+	if sess == nil {
+		panic("no session")
 	}
 	if _, err := tcc.NewTCCServiceProxy(&stub{name: "c14-action"}); err != nil {
 		panic(err)
@@ -315,6 +390,12 @@ func TestMain(m *testing.M) {
 }
 
 func TestPropSchedulesNoDrop(t *testing.T) {
+	if coldPending {
+		coldPending = false
+		c := Case{N: 4}
+		ctx.Rec.Case("cold-start", true, "cold-start", c, "cold-start")
+		ctx.Judge(t, "cold-start", coldFailure, c)
+	}
 	ctx.Check(t, func(rt *rapid.T) {
 		c := drawCase(rt, false)
 		record("no-drop", c)
